@@ -21,8 +21,12 @@ type c02Claim struct {
 	Name    string
 	Mercure map[string]any // nil = no token at all
 	Invalid bool
+	SubKey  bool // signed with the subscriber key (not the publisher's), and used once on a subscriber endpoint before every POST
 	C       Claims
 }
+
+// publisher and subscriber keys differ: a token of one role must never count for the other
+const c02SubKey = "!ChangeThisSubscriberJWTKey-C02!"
 
 const c02Allowed, c02Forbidden = "/books/1", "/secret"
 
@@ -50,6 +54,7 @@ func c02Claims() []c02Claim {
 		mk("star-last", []string{"/other", "*"}, l("/other", "*")),
 		{Name: "no-token"},
 		{Name: "bad-signature", Mercure: map[string]any{"publish": []string{"*"}}, Invalid: true},
+		{Name: "subscriber-key-token-just-used-to-subscribe", Mercure: map[string]any{"publish": []string{"*"}, "subscribe": []string{"*"}}, Invalid: true, SubKey: true},
 	}
 }
 
@@ -66,8 +71,9 @@ func newC02Hub(kind string, compat bool) *c02Hub {
 	if compat {
 		opts = append(opts, mercure.WithProtocolVersionCompatibility(7))
 	}
+	opts = append(opts, mercure.WithSubscriberJWT([]byte(c02SubKey), "HS256"))
 	env := hx.NewEnv(kind, opts...)
-	tok := hx.HSToken(map[string]any{"subscribe": []string{"*"}})
+	tok := hx.Token([]byte(c02SubKey), jwt.SigningMethodHS256, map[string]any{"subscribe": []string{"*"}}, nil)
 	w := hx.Subscribe(env.Hub, "/.well-known/mercure?topic=*", http.Header{"Authorization": {"Bearer " + tok}})
 	w.W.WaitWrites(1, 5*time.Second)
 	return &c02Hub{env: env, witness: w}
@@ -134,7 +140,9 @@ func runC02(a args) error {
 			reqs := 0
 			for _, cl := range c02Claims() {
 				var tok string
-				if cl.Invalid {
+				if cl.SubKey {
+					tok = hx.Token([]byte(c02SubKey), jwt.SigningMethodHS256, cl.Mercure, nil)
+				} else if cl.Invalid {
 					tok = badKeyTok
 				} else if cl.Mercure != nil {
 					tok = hx.HSToken(cl.Mercure)
@@ -196,6 +204,14 @@ func runC02(a args) error {
 								formTerm = ce.Some(fmt.Sprintf("{| f_topics := %s; f_retry := %s; f_private := %s; f_data := %s; f_id := %s; f_type := %s |}",
 									ce.Strs(r2.PostForm["topic"]), ce.Str(r2.PostForm.Get("retry")), ce.Bool(len(r2.PostForm["private"]) != 0),
 									ce.Str(r2.PostForm.Get("data")), ce.Str(r2.PostForm.Get("id")), ce.Str(r2.PostForm.Get("type"))))
+							}
+							if cl.SubKey {
+								// the token is genuine for the other role: it is accepted on a subscriber endpoint just before
+								st := hx.Subscribe(hub.env.Hub, "/.well-known/mercure?topic=/elsewhere", http.Header{"Authorization": {"Bearer " + tok}})
+								if !st.W.WaitWrites(1, 5*time.Second) || st.W.Status != 200 {
+									return fmt.Errorf("the subscriber-key token was refused on the subscribe endpoint: %d", st.W.Status)
+								}
+								st.Close()
 							}
 							w := httptest.NewRecorder()
 							hub.env.Hub.ServeHTTP(w, r)
